@@ -245,6 +245,35 @@ def c04_matrix(res, run, world, rng, n_extra):
     return True
 
 
+def c04_rejected_values(res, run, world, rng):
+    """A value the object's type rejects is refused with the type's code in EVERY transfer mode (expedited, segmented, block)."""
+    sim = run.sim
+    for k, o in sorted(world.om.items()):
+        if o.kind != "usr" or not o.usr[2] or not (0 < o.usr[0] <= 4):
+            continue
+        size, rderr, wrerr, ab = o.usr
+        want = ab if ab else TYPE_CODE.get(wrerr)
+        if want is None:
+            continue
+        payload = gen.rand_bytes(rng, size)
+        for mode in ("exp", "seg", "blk"):
+            before = sim.dump()
+            out = run.transfer(0, make_download(rng, o, payload, mode, rng.random() < 0.5, {}))
+            res.evals += 1
+            what = "%s download of %d bytes to %04x:%02x (type write fails with %d, application code %x)" % (mode, size, o.idx, o.sub, wrerr, ab)
+            if out.kind != "abort":
+                res.violation("c04/verdict/rejected-value/%s" % mode, "%s: outcome %r, reference abort %08x" % (what, out, want), sim=sim)
+                return False
+            if out.code != want:
+                res.violation("c04/verdict/code/rejected-value/%s/%08x" % (mode, want), "%s: abort code %08x, statement prescribes %08x" % (what, out.code, want), sim=sim)
+                return False
+            if sim.dump() != before:
+                res.violation("c04/refusal-changed-storage/rejected-value/%s" % mode, "%s: refused but storage changed" % what, sim=sim)
+                return False
+            res.nt("rejected", mode, o.idx, o.sub)
+    return True
+
+
 def c04_sweep_indices(res, run, world, lo, hi, subs):
     """Systematic index sweep with uploads (batched)."""
     sim = run.sim
@@ -500,6 +529,9 @@ def c04_work(item, ctx):
     sim = S.Sim(exe, world.cfg)
     run = Runner(res, sim, world, "C04")
     try:
+        if kind == "rejected":
+            c04_rejected_values(res, run, world, rng)
+            return res
         if kind == "nodeid":
             # the node id is changed by the application between CONodeInit and CONodeStart (CONmtSetNodeId): the server answers on the
             # response identifier of the NEW id to requests on the request identifier of the new id, and to nothing else
@@ -684,6 +716,7 @@ def configure(m, prop):
                     items.append(("sweep", st, c0, 32 if q else 16))
             items += [("toggle", i, 30 if q else 200) for i in range(8 if q else 32)]
             items += [("nodeid", i, 0) for i in range(4)]
+            items += [("rejected", i, 0) for i in range(2)]
             return items
         m.plan = plan
 
